@@ -152,7 +152,10 @@ package eval
 //@     ((lruHas(c)[k] ==> old(lruHas(c)[k])) && lruVal(c)[k] == old(lruVal(c)[k]))
 
 //@ func (*PolicyEngine).allowedXgressConnection
+//@   hide anpVerdict, npGoverned, npAllows, banpDenies
 //@   requires pe != nil && pe.cache != nil && peerOK(src) && peerOK(dst)
+//@   requires ready: evalReady(pe, src, dst)
+//@   ensures [C03] agrees: (res1 == nil && canonQuery(protocol, port)) ==> res0 == xgressAllowed(pe, src, dst, isIngress, canonProto(protocol), atoiVal(port))
 //@   modifies *
 //@   modifies lruHas { r | r == pe.cache.cache }, lruVal { r | r == pe.cache.cache }, PolicyEngine.cache { r | false }, evalCache.cache { r | false }
 //@   ensures [C03,C15] stored: (res1 == nil && pe.cache.cache != nil && connKey(src, dst, protocol, port) != "") ==>
@@ -697,3 +700,42 @@ package eval
 //@   ensures [C02,C01] both: res1 == nil ==> (wfCS(res0) && (forall q corev1.Protocol, n int :: {iset(res0.AllowedProtocols[q].Ports)[n]}
 //@         pts(res0, q, n) == (isPP(q, n) && (samePod(srcPeer, dstPeer)
 //@              || (xgressAllowed(pe, srcPeer, dstPeer, false, q, n) && xgressAllowed(pe, srcPeer, dstPeer, true, q, n))))))
+
+// ---------------------------------------------------------------------------------------------
+// C03, the eval side of the layers: the answer to a (protocol, port) query between two pods is the list-side value of the
+// point (canonProto(protocol), atoiVal(port)): xgressAllowed - the very function allAllowedXgressConnections is proved against
+// ---------------------------------------------------------------------------------------------
+//@ pred evalReady(pe *PolicyEngine, src k8s.Peer, dst k8s.Peer) = pe != nil && anpsReady(pe) && netpolsOK(pe) && banpReady(pe)
+//@     && realPeer(src) && realPeer(dst) && realDst(dst) && dyntype(dst, *k8s.PodPeer) && dyntype(src, *k8s.PodPeer)
+
+//@ func (*PolicyEngine).allowedXgressConnectionByAdminNetpols
+//@   hide anpSelects, anpIngAt, anpEgAt
+//@   requires evalReady(pe, src, dst)
+//@   modifies *
+//@   ensures [C03,C02] agrees: (err == nil && canonQuery(protocol, port)) ==> (
+//@        (!passOrNonCaptured && res) == anpVerdict(pe, src, dst, isIngress, "Allow", canonProto(protocol), atoiVal(port))
+//@     && (!passOrNonCaptured && !res) == anpVerdict(pe, src, dst, isIngress, "Deny", canonProto(protocol), atoiVal(port)))
+//@   loop 1:
+//@     invariant ready: anpsReady(pe)
+//@     invariant none: canonQuery(protocol, port) ==> (forall b int :: {pe.sortedAdminNetpols[b]} (0 <= b && b <= rangeindex) ==>
+//@         !anpAny(pe.sortedAdminNetpols[b], src, dst, isIngress, canonProto(protocol), atoiVal(port)))
+
+//@ func (*PolicyEngine).allowedXgressConnectionByNetpols
+//@   hide peerMatch, portMatch, governs, ingressPolicyPts, egressPolicyPts
+//@   requires evalReady(pe, src, dst)
+//@   modifies *
+//@   ensures [C03] captured: err == nil ==> captured == npGoverned(pe, src, dst, isIngress)
+//@   ensures [C03] agrees: (err == nil && captured && canonQuery(protocol, port)) ==> res == npAllows(pe, src, dst, isIngress, canonProto(protocol), atoiVal(port))
+//@   loop 1:
+//@     invariant members: forall j int :: {netpols[j]} (0 <= j && j < len(netpols)) ==>
+//@         (npOK(pe, netpols[j]) && (exists name string :: governing(pe, peerPod(selPeer(src, dst, isIngress)), isIngress, name) && netpols[j] == pe.netpolsMap[peerPod(selPeer(src, dst, isIngress)).Namespace][name]))
+//@     invariant complete: forall name string :: {name in pe.netpolsMap[peerPod(selPeer(src, dst, isIngress)).Namespace]} governing(pe, peerPod(selPeer(src, dst, isIngress)), isIngress, name) ==>
+//@         (exists j int :: 0 <= j && j < len(netpols) && netpols[j] == pe.netpolsMap[peerPod(selPeer(src, dst, isIngress)).Namespace][name])
+//@     invariant none: canonQuery(protocol, port) ==> (forall j int :: {netpols[j]} (0 <= j && j <= rangeindex) ==>
+//@         !policyPts(netpols[j], src, dst, isIngress, canonProto(protocol), atoiVal(port)))
+
+//@ func (*PolicyEngine).allowedXgressByBaselineAdminNetpolOrByDefault
+//@   hide banpSelects, banpIngAt, banpEgAt
+//@   requires evalReady(pe, src, dst)
+//@   modifies *
+//@   ensures [C03,C02] agrees: (res1 == nil && canonQuery(protocol, port)) ==> res0 == !banpDenies(pe, src, dst, isIngress, canonProto(protocol), atoiVal(port))
